@@ -48,7 +48,7 @@ def _find_nodes(module_node, pos, until_pos):
     start_node = module_node.get_leaf_for_position(pos, include_prefixes=True)
 
     if until_pos is None:
-        if start_node.type == 'operator':
+        if start_node.type in ('operator', 'newline'):
             next_leaf = start_node.get_next_leaf()
             if next_leaf is not None and next_leaf.start_pos == pos:
                 start_node = next_leaf
@@ -210,7 +210,10 @@ def extract_function(inference_state, path, module_context, name, pos, until_pos
     nodes = _find_nodes(module_context.tree_node, pos, until_pos)
     assert len(nodes)
 
-    is_expression, _ = _is_expression_with_error(nodes)
+    is_expression, message = _is_expression_with_error(nodes)
+    if any(node.type == 'name' and node.is_definition() for node in nodes):
+        # Statements can be extracted, but not the name that they define.
+        raise RefactoringError(message)
     context = module_context.create_context(nodes[0])
     is_bound_method = context.is_bound_method()
     params, return_variables = list(_find_inputs_and_outputs(module_context, context, nodes))
@@ -241,13 +244,20 @@ def extract_function(inference_state, path, module_context, name, pos, until_pos
 
         remaining_prefix, code_block = _suite_nodes_to_string(nodes, pos)
         after_leaf = nodes[-1].get_next_leaf()
+        if until_pos is None:
+            # Only a cursor position was given, the selection is the statement.
+            until_pos = nodes[-1].end_pos
         first, second = _split_prefix_at(after_leaf, until_pos[0])
         code_block += first
 
         code_block = dedent(code_block)
+        if not code_block.endswith('\n'):
+            # The selection ended before the newline of its last statement.
+            code_block += '\n'
         if not has_ending_return_stmt:
             output_var_str = ', '.join(return_variables)
-            code_block += 'return ' + output_var_str + '\n'
+            if output_var_str:
+                code_block += 'return ' + output_var_str + '\n'
 
     # Check if we have to raise RefactoringError
     _check_for_non_extractables(nodes[:-1] if has_ending_return_stmt else nodes)
@@ -282,8 +292,11 @@ def extract_function(inference_state, path, module_context, name, pos, until_pos
     else:
         if has_ending_return_stmt:
             replacement = 'return ' + function_call + '\n'
-        else:
+        elif output_var_str:
             replacement = output_var_str + ' = ' + function_call + '\n'
+        else:
+            # The extracted statements don't define anything that is used later.
+            replacement = function_call + '\n'
 
     replacement_dct = _replace(nodes, replacement, function_code, pos,
                                insert_before_leaf, remaining_prefix)
